@@ -772,7 +772,9 @@ pub fn t_gen(p: P, idx: u64) -> impl Fn() {
         }
         let mut r = p.run_cfg(cfg);
         symrt::set_full(false);
-        if p.native {
+        // (only under the cross-cutting monitors: the per-operation oracles of C04-C07, C11, C12
+        // measure wallet deltas of calls that attach nothing)
+        if p.native && matches!(p.prop, "C01" | "C02" | "C03" | "C08" | "C10") {
             let mut g2 = Rng(p.seed.wrapping_mul(7_919).wrapping_add(idx) ^ 0xA77AC4);
             if g2.chance(50) {
                 r.w.attach = Some(Uint128::new(g2.pick(&[1u128, 7, 300]) * d));
